@@ -295,6 +295,14 @@ static std::string exec(World& w, const Toks& t, TestAP*& owner) {
     if (a.xGetParameterPtr(i).get() != p1 || ca.xGetParameterPtrC(i).get() != p1) return "overloads-disagree";
     return "obj " + entry(w, a.xGetParameterPtr(i));
   }
+  if (o == "ap.copy" || o == "ap.assign") {
+    // the owner's implicit copy constructor (what TestAP::clone uses) / copy assignment
+    size_t j = toU(t[2]);
+    TestAP& src = w.A(k); w.A(j);
+    if (o == "ap.copy") { std::unique_ptr<TestAP> c(src.clone()); w.ap[j - NPLAIN] = std::move(c); }
+    else w.A(j) = src;
+    return "ok";
+  }
   if (o == "ap.nons") { return "str " + showName(w.A(k).getParameterNameWithoutNamespace(name(t[2]))); }
   return "bad-op";
 }
